@@ -1,11 +1,12 @@
 #!/usr/bin/env python3
-"""Markdown table of the seeded changes and which checks catch them (for DESIGN.md section 13)."""
+"""Markdown table of the seeded changes and which checks catch them (DESIGN.md section 13)."""
 import json, glob, os
 rows = []
 for d in sorted(glob.glob('/verif/seeded/*/meta.json')):
     m = json.load(open(d))
     name = os.path.basename(os.path.dirname(d))
     c = m["checks"]
-    rows.append("| %s | %s | %s | %s | %s |" % (name, ", ".join(m.get("files_changed", []))[:60], (m.get("summary", "").split(".")[0])[:150].replace("|", "/"), "yes" if c["target_property_caught"] else "**no**", " ".join(c["caught_by"]) or "-"))
-print("| change | file | what | caught by its property's check | all checks that alarm |\n|---|---|---|---|---|")
+    what = " ".join(m.get("summary", "").split())[:170].replace("|", "/")
+    rows.append("| %s | %s | %s | %s |" % (name, what, "yes" if c["target_property_caught"] else "no (others do)" if c["caught_by"] else "**missed**", " ".join(c["caught_by"]) or "-"))
+print("| change | what (first words of the author's summary) | its property's check alarms | all checks that alarm |\n|---|---|---|---|")
 print("\n".join(rows))
